@@ -9,6 +9,7 @@ import DdoModel.Engines.ExModel
 import DdoModel.Engines.DomCyc
 import DdoModel.Engines.CacheOrder
 import DdoModel.Engines.CacheDom
+import DdoModel.Engines.CacheCut
 /-! Line-protocol driver.  stdin: pairs of lines
       `C <engine> <id> <case tokens…>`
       `I <id> <implementation output tokens…>`
@@ -34,6 +35,7 @@ def dispatch (engine : String) (c i : List String) : Option Res :=
   | "domcyc" => domcycEngine c i
   | "cacheorder" => cacheorderEngine c i
   | "cachedom" => cachedomEngine c i
+  | "cachecut" => cachecutEngine c i
   | _ => none
 
 partial def loop (h : IO.FS.Stream) (out : IO.FS.Stream) : IO Unit := do
